@@ -9,6 +9,9 @@ input and after every emitted item has left the last filter.
 -/
 import TbbVerif.Proofs.C07.Refine
 import TbbVerif.Proofs.C07.Final
+import TbbVerif.Proofs.C07.LifeFin
+import TbbVerif.Proofs.C07.WrapRun
+import TbbVerif.Generated.C07
 
 namespace TbbVerif.C07
 
@@ -209,6 +212,270 @@ example :
     let c : Cfg := { modes := [.outOfOrder, .inOrder], maxTok := 1, total := 1 }
     let s := (sys c).run [0, 0, 0, 0, 0, 0, 0, 0, 0, 0, 0, 0]
     s.wait = 0 ∧ s.eoi = true ∧ s.done 1 = [0] := by
+  decide
+
+
+/-! ## Token life cycle; the cancelled / throwing pipeline
+
+`Life.runL c f evs` is the model of `Model/C07Life.lean`: the base pipeline model plus, per stage_task, its position in
+the dispatcher loop, the context's cancellation flag, and the ledger of `create_token` / `destroy_token` calls.  An event
+list is any interleaving of task steps (`run tid`), filter bodies throwing (`throw tid`, at any invocation of any
+filter), external cancellation (`cancel`, at any moment) and the return (`ret`, enabled when `wait_ctx == 0`).  `f` says
+whether `~pipeline` hands the items parked in the buffers to `finalize` (`Generated.C07.bufferCleanup` for the current
+tree).  `tok i k` = the token object made by filter `k` for item `i`; `stopVal j` = the value returned by the `j`-th
+invocation that called `fc.stop()`. -/
+
+open Life in
+/-- **token_objects_destroyed_once.**  For every pipeline (any filters and modes, a parallel or serial_out_of_order first
+filter included), every token limit ≥ 1, every schedule and every throw / cancellation point:
+* at every moment no token object has been created twice or destroyed twice, and only created objects are destroyed;
+* while the call has not returned, a created and not yet destroyed object `tok i k` is in exactly one place: parked in
+  the buffer of filter `k+1`, or carried (`my_object`) by one stage_task that still exists and stands in front of /
+  inside filter `k+1` (so the next invocation or that task's destructor will find it);
+* when the call has returned, every created object has been destroyed exactly once — by the next filter's invocation, or
+  by `~stage_task` of a cancelled task (its own `my_object`) — EXCEPT the objects sitting in valid buffer slots
+  (`low_token < token`, `is_valid`) at that moment: with `bufferCleanup` they are destroyed exactly once by the clean-up,
+  without it they are never destroyed (`leaked`), and these are precisely the slot contents; this can only happen in a
+  cancelled pipeline;
+* hence: with `bufferCleanup`, or in a pipeline that was never cancelled and in which no body threw, every token object the
+  library created is destroyed exactly once. -/
+theorem token_objects_destroyed_once (c : Cfg) (hv : c.Valid) (f : Flags) (evs : List Ev) :
+    (∀ o, (runL c f evs).created.count o ≤ 1) ∧ (∀ o, (runL c f evs).destroyed.count o ≤ 1) ∧
+    (∀ o, o ∈ (runL c f evs).destroyed → o ∈ (runL c f evs).created) ∧
+    ((runL c f evs).returned = false → ∀ i k, Obj.tok i k ∈ (runL c f evs).created → Obj.tok i k ∉ (runL c f evs).destroyed →
+      k + 1 < c.n ∧
+      ((∃ tok, (runL c f evs).base.loc[i]? = some (.parked (k + 1) tok)) ∨
+       (∃ tid t, (runL c f evs).base.loc[i]? = some (.task tid) ∧ (runL c f evs).base.tasks[tid]? = some t ∧
+          t.info.item = i ∧ heldObj c t = some (Obj.tok i k) ∧ liveTask (runL c f evs) tid = true))) ∧
+    ((runL c f evs).returned = true →
+      (∀ o, o ∈ (runL c f evs).created →
+        (runL c f evs).destroyed.count o = 1 ∨ (o ∈ (runL c f evs).leaked ∧ (runL c f evs).destroyed.count o = 0)) ∧
+      (∀ o, o ∈ (runL c f evs).leaked → f.bufferCleanup = false ∧ (runL c f evs).cancelled = true ∧
+        ∃ i k tok info, o = Obj.tok i k ∧ k + 1 < c.n ∧ ((runL c f evs).base.bufs (k + 1)).abs tok = some info ∧ info.item = i) ∧
+      (∀ k tok info, ((runL c f evs).base.bufs k).abs tok = some info →
+        (f.bufferCleanup = false ∧ Obj.tok info.item (k - 1) ∈ (runL c f evs).leaked) ∨
+        (f.bufferCleanup = true ∧ (runL c f evs).destroyed.count (Obj.tok info.item (k - 1)) = 1)) ∧
+      (f.bufferCleanup = true ∨ (runL c f evs).cancelled = false →
+        ∀ o, o ∈ (runL c f evs).created → (runL c f evs).destroyed.count o = 1)) := by
+  rcases inv_run hv f evs with h | h
+  · refine ⟨core_crt1 h, core_dst1 h, core_sub h, ?_, fun hr => by rw [h.notRet] at hr; cases hr⟩
+    intro _ i k hc hd
+    obtain ⟨_, hn, hp | ⟨tid, t, hl, ht, _, hit, he, hng⟩⟩ := core_held h hc hd
+    · exact ⟨hn, Or.inl hp⟩
+    · refine ⟨hn, Or.inr ⟨tid, t, hl, ht, hit, ?_, ?_⟩⟩
+      · unfold heldObj; rw [if_pos ⟨by omega, by omega⟩, hit, he]; rfl
+      · have hlt : tid < (runL c f evs).ph.length := by rw [h.phLen]; exact lt_of_getElem? ht
+        have hdead : t.pc ≠ .dead := by
+          intro hd'; unfold endedOf at he; rw [hd'] at he; simp at he
+        unfold liveTask
+        rw [ht, List.getElem?_eq_getElem hlt]
+        simp only [bne_iff_ne, ne_eq, Bool.and_eq_true]
+        refine ⟨hdead, ?_⟩
+        intro hg; apply hng; rw [List.getElem?_eq_getElem hlt, hg]
+  · have hone : ∀ o, o ∈ (runL c f evs).destroyed → (runL c f evs).destroyed.count o = 1 := by
+      intro o hm
+      have h1 := h.dst1 o
+      have h2 := List.count_pos_iff.2 hm
+      omega
+    refine ⟨h.crt1, h.dst1, h.sub, (fun hr => by rw [h.ret] at hr; cases hr), fun _ => ⟨?_, h.leakedSpec, ?_, ?_⟩⟩
+    · intro o hc
+      rcases h.acct o hc with hd | hl
+      · exact Or.inl (hone o hd)
+      · exact Or.inr ⟨hl, List.count_eq_zero.2 (h.leakNot o hl)⟩
+    · intro k tok info ha
+      rcases h.slots k tok info ha with ⟨h1, h2⟩ | ⟨h1, h2⟩
+      · exact Or.inl ⟨h1, h2⟩
+      · exact Or.inr ⟨h1, hone _ h2⟩
+    · intro hor o hc
+      rcases h.acct o hc with hd | hl
+      · exact hone o hd
+      · obtain ⟨h1, h2, _⟩ := h.leakedSpec o hl
+        rcases hor with hor | hor
+        · rw [hor] at h1; cases h1
+        · rw [hor] at h2; cases h2
+
+open Life in
+/-- **flow_control_stop_value_dropped.**  The value returned by an input invocation that called `fc.stop()` is created
+and destroyed in the same step (`create_token` then `destroy_token` inside the input filter's wrapper): at every moment
+it has been created at most once and destroyed exactly as often as created; it is never an object that a stage_task
+carries or a buffer slot holds (so no clean-up can destroy it again and it cannot leak); and it is not passed on: the
+items on which later filters are invoked are items that non-stopping invocations returned (`< produced`). -/
+theorem flow_control_stop_value_dropped (c : Cfg) (hv : c.Valid) (f : Flags) (evs : List Ev) (j : Nat) :
+    (runL c f evs).created.count (Obj.stopVal j) = (runL c f evs).destroyed.count (Obj.stopVal j) ∧
+    (runL c f evs).created.count (Obj.stopVal j) = (if j < (runL c f evs).stops then 1 else 0) ∧
+    (∀ t, heldObj c t ≠ some (Obj.stopVal j)) ∧ Obj.stopVal j ∉ parkedObjs (runL c f evs).base ∧
+    Obj.stopVal j ∉ (runL c f evs).leaked ∧
+    (∀ k i, i ∈ (runL c f evs).base.seen k → i < (runL c f evs).base.produced) := by
+  have hheld : ∀ t, heldObj c t ≠ some (Obj.stopVal j) := by
+    intro t hh; obtain ⟨_, _, he⟩ := heldObj_some hh; cases he
+  have hpark : Obj.stopVal j ∉ parkedObjs (runL c f evs).base := by
+    intro hm; obtain ⟨_, _, _, _, _, he⟩ := mem_parkedObjs.1 hm; cases he
+  have hseen : ∀ (b : St), BInv c b → ∀ k i, i ∈ b.seen k → i < b.produced := by
+    intro b hb k i hi
+    have hbg := (hb.2.2.2.1.seenIff i k).1 hi
+    rcases Nat.lt_or_ge i b.produced with h1 | h1
+    · exact h1
+    · have := (begun_of_none (c := c) (s := b) (i := i) (List.getElem?_eq_none (by rw [hb.1.locLen]; exact h1))).1
+      omega
+  rcases inv_run hv f evs with h | h
+  · refine ⟨by rw [(h.stp j).1, (h.stp j).2], (h.stp j).1, hheld, hpark, by rw [h.noLeak]; simp, hseen _ h.binv⟩
+  · have hcnt : (runL c f evs).created.count (Obj.stopVal j) = (if j < (runL c f evs).stops then 1 else 0) ∨ True := Or.inr trivial
+    refine ⟨h.stops j, ?_, hheld, hpark, ?_, hseen _ h.binv⟩
+    · exact h.stopCnt j
+    · intro hm; obtain ⟨_, _, _, _, _, _, he, _⟩ := h.leakedSpec _ hm; cases he
+
+open Life in
+/-- **live_tokens_bounded_cancel** (`live_tokens_bounded` on the extended model).  For every event list — throws and
+cancellations anywhere — the number of items the input filter has returned and that have not left the last filter
+(those whose token object was meanwhile destroyed by a cancelled task's clean-up included) never exceeds
+`max_number_of_live_tokens`, and `input_tokens` plus the tokens held never exceeds it either; a cancelled task does not
+give its token back (`~stage_task` does not touch `input_tokens`), so the moment of its clean-up changes neither side. -/
+theorem live_tokens_bounded_cancel (c : Cfg) (hv : c.Valid) (f : Flags) (evs : List Ev) :
+    (runL c f evs).base.produced - ((runL c f evs).base.done (c.n - 1)).length ≤ c.maxTok ∧
+    (runL c f evs).base.tokens ≤ c.maxTok := by
+  have hb : BInv c (runL c f evs).base := by
+    rcases inv_run hv f evs with h | h
+    · exact h.binv
+    · exact h.binv
+  exact ⟨live_bound hb.2.1, by have := hb.2.1.tokLe; omega⟩
+
+open Life in
+/-- **pipeline_returns_after_drain_cancel** (`pipeline_returns_after_drain` extended to the cancelled case).  The call
+returns only when `wait_ctx` is zero; in every state in which it has returned no stage_task object exists any more —
+so no filter invocation is running and none can start (the only way a parked item could start is a note-done by a live
+task) — and if the context was never cancelled (no throw, no cancellation) the input filter has signalled end of input
+and every item it returned has been begun and ended by every filter. -/
+theorem pipeline_returns_after_drain_cancel (c : Cfg) (hv : c.Valid) (f : Flags) (evs : List Ev)
+    (hr : (runL c f evs).returned = true) :
+    (∀ tid, liveTask (runL c f evs) tid = false) ∧ (∀ tid, insideBody (runL c f evs) tid = false) ∧
+    ((runL c f evs).cancelled = false →
+      (runL c f evs).base.eoi = true ∧
+      ∀ i k, i < (runL c f evs).base.produced → k < c.n →
+        i ∈ (runL c f evs).base.seen k ∧ i ∈ (runL c f evs).base.done k) := by
+  rcases inv_run hv f evs with h | h
+  · rw [h.notRet] at hr; cases hr
+  · refine ⟨?_, ?_, ?_⟩
+    · intro tid
+      unfold liveTask
+      cases ht : (runL c f evs).base.tasks[tid]? with
+      | none => rfl
+      | some t =>
+        cases hp : (runL c f evs).ph[tid]? with
+        | none => rfl
+        | some p =>
+          rcases h.noLive tid t ht with hd | hg
+          · simp [hd]
+          · rw [hp] at hg; cases hg; simp
+    · intro tid
+      unfold insideBody
+      cases ht : (runL c f evs).base.tasks[tid]? with
+      | none => rfl
+      | some t =>
+        cases hp : (runL c f evs).ph[tid]? with
+        | none => rfl
+        | some p =>
+          rcases h.noLive tid t ht with hd | hg
+          · cases p <;> simp [hd, inBodyPc]
+          · rw [hp] at hg; cases hg; rfl
+    · intro hc
+      obtain ⟨hA, hB, hC, hD, hE⟩ := h.binv
+      obtain ⟨he, hret⟩ := drained_of_wait_zero hv hA hB hC hE (h.clean hc)
+      refine ⟨he, fun i k hi hk => ?_⟩
+      have := begun_of_retired (c := c) (hret i hi)
+      exact ⟨(hD.seenIff i k).2 (by omega), (hD.doneIff i k).2 (by omega)⟩
+
+open Life in
+/-- **cancel_preserves_safety.**  Cancellation and exceptions only remove behaviour: the pipeline state reached by any
+event list is a state the un-cancelled model reaches under some schedule (the cancelled tasks are tasks that are never
+scheduled again).  Hence `serial_mutex`, `serial_in_order`, `serial_in_order_common`,
+`each_item_every_filter_at_most_once`, `live_tokens_bounded` and `no_assertion_fails` hold verbatim for cancelled and
+throwing pipelines. -/
+theorem cancel_preserves_safety (c : Cfg) (f : Flags) (evs : List Ev) :
+    ∃ sched : List Tid, (runL c f evs).base = (sys c).run sched :=
+  base_reachable c f evs
+
+/-! Non-vacuity: serial_in_order input, serial_out_of_order second filter, 2 tokens.  Item 0 enters filter 1, item 1 is
+parked behind it; then the body of filter 1 throws on item 0: the catch block cancels the context, the task's clean-up
+destroys `tok 0 0`, nobody advances `low_token`, the call returns, and `tok 1 0` is still in the buffer slot. -/
+example :
+    let c : Cfg := { modes := [.inOrder, .outOfOrder], maxTok := 2, total := 2 }
+    let s := Life.runL c { bufferCleanup := false }
+      [.run 0, .run 0, .run 0, .run 0, .run 0, .run 0, .run 0, .run 1, .run 1, .run 1, .run 1, .run 1,
+       .throw 0, .run 0, .run 0, .ret]
+    s.returned = true ∧ s.cancelled = true ∧ s.created = [.tok 0 0, .tok 1 0] ∧ s.destroyed = [.tok 0 0] ∧
+    s.leaked = [.tok 1 0] := by
+  decide
+
+/-! ... and with the clean-up the same event list destroys both. -/
+example :
+    let c : Cfg := { modes := [.inOrder, .outOfOrder], maxTok := 2, total := 2 }
+    let s := Life.runL c { bufferCleanup := true }
+      [.run 0, .run 0, .run 0, .run 0, .run 0, .run 0, .run 0, .run 1, .run 1, .run 1, .run 1, .run 1,
+       .throw 0, .run 0, .run 0, .ret]
+    s.returned = true ∧ s.destroyed = [.tok 0 0, .tok 1 0] ∧ s.leaked = [] := by
+  decide
+
+/-! The flag the translator extracted from the current tree. -/
+example : Life.Flags := { bufferCleanup := Generated.C07.bufferCleanup }
+
+
+/-! ## Token numbers that wrap around at 2^tokenBits
+
+`Token` is `unsigned long`.  `Wrap.*` (`Model/C07Wrap.lean`) is `input_buffer` with every `++`, `-`, `+1` on
+`low_token` / `high_token` / `my_token` wrapping at `W = 2^tokenBits` and the assertion `(long)(token-low_token) >= 0`;
+`wordMach o off` starts with `low_token = high_token = off mod W` (the white-box test sets them near SIZE_MAX),
+`natMach o off` is the unbounded model of the theorems above started at `off`. -/
+
+open Wrap in
+/-- **tokenbuf_no_collision_wrap.**  Token numbers as machine words: two tokens that are both less than `array_size = 2^k`
+ahead of `low_token` in wrapping arithmetic (`token - low_token < array_size`, whether or not the counters have crossed
+`2^tokenBits` in between) and have the same slot index `token & (array_size-1)` are the same token. -/
+theorem tokenbuf_no_collision_wrap (k : Nat) (hk : k ≤ 64) (low t1 t2 : Nat) (_hl : low < W) (h1 : t1 < W) (h2 : t2 < W)
+    (d1 : wsub t1 low < 2 ^ k) (d2 : wsub t2 low < 2 ^ k)
+    (h : TokenBuf.idx (2 ^ k) t1 = TokenBuf.idx (2 ^ k) t2) : t1 = t2 := by
+  rw [TokenBuf.idx_eq_mod, TokenBuf.idx_eq_mod] at h
+  have hd := pow_dvd_W hk
+  have e1 : wsub t1 low % 2 ^ k = (t1 + (W - low % W)) % 2 ^ k := by unfold wsub; exact Nat.mod_mod_of_dvd _ hd
+  have e2 : wsub t2 low % 2 ^ k = (t2 + (W - low % W)) % 2 ^ k := by unfold wsub; exact Nat.mod_mod_of_dvd _ hd
+  have hw : wsub t1 low = wsub t2 low := by
+    rw [← Nat.mod_eq_of_lt d1, ← Nat.mod_eq_of_lt d2, e1, e2, Nat.add_mod, h, ← Nat.add_mod]
+  unfold wsub at hw
+  rw [W_val] at *
+  omega
+
+open Wrap in
+/-- **tokenbuf_wrap_refines.**  The precise bound the code needs is `token - low_token < 2^(tokenBits-1)` at every
+`try_put_token` (`okRun`: the put token is not below `low_token` and less than 2^63 ahead of it — guaranteed with a
+wide margin by `max_number_of_live_tokens ≤ 2^62`, since `live_tokens_bounded` bounds the tokens in flight).  Under it
+the word-level buffer, started at ANY offset (so for counters that cross 2^tokenBits any number of times), gives for every
+operation sequence the outputs of the unbounded model reduced modulo `W` (same parked / run-now decisions, same
+wakees) and its state is the unbounded state reduced modulo `W` (same array, same sizes).  Hence every ring theorem
+above holds for the wrapping implementation. -/
+theorem tokenbuf_wrap_refines (o : Bool) (off : Nat) (ops : List BufOp) (hok : okRun o (newAt o off) ops) :
+    ((wordMach o off).run (ops.map wOp)).1 = wordOf ((natMach o off).run ops).1 ∧
+    ((wordMach o off).run (ops.map wOp)).2 = ((natMach o off).run ops).2.map wOut := by
+  have h := run_w o off ops (newAt o off) (newAt_wok o off) hok
+  rw [wordOf_newAt] at h
+  unfold Mach.run
+  show ((wordMach o off).runFrom (newAt o (off % W)) (ops.map wOp)).1 = _ ∧
+    ((wordMach o off).runFrom (newAt o (off % W)) (ops.map wOp)).2 = _
+  rw [h]
+  exact ⟨rfl, rfl⟩
+
+/-! Non-vacuity: an ordered buffer whose counters start 2 below 2^64; token 2^64-1 and token 2^64+1 (word: 1) are parked,
+token 2^64-2 runs at once; three note-done calls carry `low_token` across the wrap and release both in order. -/
+def wrapDemo : List BufOp :=
+  [.put ⟨7, 2 ^ 64 - 1, true⟩, .put ⟨8, 2 ^ 64 + 1, true⟩, .put ⟨9, 2 ^ 64 - 2, true⟩, .done, .done, .done]
+
+example : Wrap.okRun true (Wrap.newAt true (2 ^ 64 - 2)) wrapDemo := by
+  simp only [wrapDemo, Wrap.okRun, Wrap.okStep]
+  decide
+
+example :
+    ((Wrap.wordMach true (2 ^ 64 - 2)).run (wrapDemo.map Wrap.wOp)).2 =
+      [.put (some (⟨7, 2 ^ 64 - 1, true⟩, 2 ^ 64 - 1, true)), .put (some (⟨8, 1, true⟩, 1, true)),
+       .put (some (⟨9, 2 ^ 64 - 2, true⟩, 2 ^ 64 - 2, false)), .done (some ⟨7, 2 ^ 64 - 1, true⟩), .done none, .done (some ⟨8, 1, true⟩)] ∧
+    ((Wrap.wordMach true (2 ^ 64 - 2)).run (wrapDemo.map Wrap.wOp)).1.low = 1 := by
   decide
 
 end TbbVerif.C07
